@@ -1,6 +1,9 @@
 (* Proofs/VSysProofs.v — reachable-state theorems for the second configuration (VSys.v):
    Scheduler over NewVolatileTaskRepo(CronStore).  Every theorem is for every schedule [nxt] and every trace
-   accepted by [vrun] from [vsys_init].  No model file is modified.
+   accepted by [vrun] from [vsys_init].
+   The model includes the transient failure of the store's Pop inside MarkAsDispatched (VSys.head_bound: result
+   RErr EOther accepted when the head is known under the id; nothing popped, the record kept; the scheduler reports
+   DispatchErr).  [failed_mark] / [has_failed_mark] recognise that label in a trace.
 
    PROVED AS STATED
    - VC03_no_early_start   (every sc with sc_clock_check sc = true): a recorded start never precedes t_sched.
@@ -9,6 +12,10 @@
      vstarts_of and vs_starts (it needs "no VNew", see below).
    - VC04_at_most_once     (EVERY sc, the pinned one included): no id occurs twice in vs_starts.
    - V_nonvacuous: a concrete accepted trace with a work-function start (and vall_ok = true on it).
+   - V_retry_finds_task (ex_retry_trace): the same run with ONE failed Pop: DispatchErr, Retry(DispatchErr), GetById finds
+     the record, pc = PDisp1 KRetry (not dead any more), MarkAsDispatched pops, the task starts once; vall_ok = true.
+   - V_retry_finds_nothing: for traces WITHOUT a failed Pop (has_failed_mark tr = false) Retry(DispatchErr) still never
+     finds the task (PDisp1 dead); V_retry_dispatches_only_due: in general whatever it finds and dispatches again is due.
 
    STATEMENTS THAT ARE FALSE OF THE MODEL AS GIVEN, with witness and the strongest true variant
    - Clock monotonicity over arbitrary traces is FALSE: VNew n ... is accepted in every state and sets vs_now := n
@@ -24,18 +31,25 @@
      NextScheduled agree on the new head, the pinned Step announces it and it starts 1h early.
 
    HOW
-   - C03 needs no property of the cron store.  Invariant VI3: the record maps an id to a task of that id; accepted
-     tasks are due; [due]: whatever GetById(id) would return now is due, for the id of vs_last and of PDisp2; vs_last
-     is None at PSelect/PFire1/PFire2 (so the rec_set at GetNext cannot overwrite the announced task's record with
-     a later occurrence); PFire2 carries the task just recorded; and
-       PEnd (SDispatchErr t), vs_retry = Some (SDispatchErr t), PRetryDE t  ==>  rec_get record (t_id t) = None,
-     i.e. Retry(DispatchErr) NEVER finds the task in this configuration: PDisp1 and PDisp2 KRetry are dead code
-     (V_retry_finds_nothing).  The clock-dependent clauses are guarded by G := (sc_clock_check sc = true), so the same
-     invariant serves C04 for every sc.
+   - C03 needs one property of the cron store: pending occurrences are Scheduled tasks (PendSched; ToTask).  Invariant
+     VI3 G F: the record maps an id to a Scheduled task of that id; accepted tasks are due; [due]: whatever GetById(id)
+     would return now is due, for the id of vs_last, of PDisp1 and of PDisp2; vs_last is None at PSelect/PFire1/PFire2 (so
+     the rec_set at GetNext cannot overwrite the announced task's record with a later occurrence) and on the whole
+     DispatchErr / Retry path (PDisp1, PDisp2, PRetryDE, PEnd DispatchErr, vs_retry = DispatchErr); PFire2 carries the
+     task just recorded; and
+       PEnd (SDispatchErr t), vs_retry = Some (SDispatchErr t), PRetryDE t  ==>  F \/ rec_get record (t_id t) = None
+       PDisp1 _ t  ==>  F /\ due (t_id t)
+     where F := "a Pop inside MarkAsDispatched may have failed" (vi3_step: failed_mark l = true -> F).  F := True: every
+     accepted trace; Retry(DispatchErr) may find the task, but it re-checks the clock (t_after) before PDisp1, which is
+     what keeps C03.  F := False: traces without a failed Pop, where Retry(DispatchErr) finds nothing
+     (V_retry_finds_nothing).  The commitment "the head is still bound to the id" lives in VRestProofs.v (RetryBound).
+     The clock-dependent clauses are guarded by G := (sc_clock_check sc = true), so the same invariant serves C04 for
+     every sc.
    - C04.  Invariant VI4: Inv15 of the store (CronInv.v); vs_ids is injective both ways and binds only insertion
      numbers <= cr_ins; the ids in vs_accepted ++ vs_starts are pairwise distinct and each is bound to an insertion
      number that is not pending ([gone]); at PDisp2, if the record still has the id then the id is not yet
-     accepted/started and is [gone].  Cron facts used: pend_ext (Pop / EditTask only create pending tasks with
+     accepted/started and is [gone] (v_mark_disp_vi4 gives this for the dispatch by Retry - PDisp1 - as for Step's; a
+     failed Pop pops nothing and changes nothing but the scheduler's own state).  Cron facts used: pend_ext (Pop / EditTask only create pending tasks with
      insertion numbers > cr_ins: pend_ext_edit, pop_gone), NoDup of pending insertion numbers and pt_ins <= cr_ins
      (Inv15).  The model's assumption that a first-seen head carries an id not in vs_ids (head_accept) is what
      makes uuids fresh; it is used as given. *)
@@ -112,68 +126,152 @@ Section VProofs.
       + inv H. repeat split; auto.
   Qed.
 
+  (* ---------- a failed Pop inside MarkAsDispatched: the label, and what it leaves alone (everything) ---------- *)
+  Lemma head_bound_spec s id : head_bound s id = true ->
+    exists h, pt_min None (cr_pending (vs_cron s)) = Some h /\ id_of (vs_ids s) (pt_ins h) = Some id.
+  Proof.
+    unfold head_bound. destruct (pt_min None (cr_pending (vs_cron s))) as [h|]; [|discriminate].
+    destruct (id_of (vs_ids s) (pt_ins h)) as [i|] eqn:G; [|discriminate]. intros E. apply String.eqb_eq in E. subst i.
+    exists h. split; [reflexivity | exact G].
+  Qed.
+
+  (* ---------- every pending occurrence of the cron store is a Scheduled task (ToTask) ---------- *)
+  Definition PendSched (c : cron) : Prop := forall p, In p (cr_pending c) -> t_state (pt_task p) = Scheduled.
+  Lemma wrap_scheduled k muts ins now p : t_state (pt_task (wrap k muts ins now p)) = Scheduled.
+  Proof. reflexivity. Qed.
+  Lemma stage_scheduled c now rk : forall added acc ins st ins',
+    (forall x, In x acc -> t_state (pt_task (st_pt x)) = Scheduled) ->
+    stage nxt c now rk added acc ins = Some (st, ins') -> forall x, In x st -> t_state (pt_task (st_pt x)) = Scheduled.
+  Proof.
+    induction added as [|eid r IH]; intros acc ins st ins' Hacc H; cbn [stage] in H.
+    - inv H. exact Hacc.
+    - destruct (arena_get (cr_arena c) eid) as [e|]; [|discriminate].
+      match type of H with (if ?b then _ else _) = _ => destruct b end; [discriminate|].
+      destruct (load_mutators _ _ _) as [muts|]; [|discriminate].
+      eapply IH; [|exact H]. intros x Hx. apply in_app_or in Hx. destruct Hx as [Hx|[<-|[]]]; [auto | reflexivity].
+  Qed.
+  Lemma commit_scheduled c rk st ins : PendSched c -> (forall x, In x st -> t_state (pt_task (st_pt x)) = Scheduled) ->
+    PendSched (commit nxt c rk st ins).
+  Proof.
+    intros Hc Hst p Hp. unfold commit in Hp. cbn [cr_pending] in Hp. apply in_app_or in Hp. destruct Hp as [Hp|Hp].
+    - apply filter_In in Hp. apply Hc. apply Hp.
+    - apply in_map_iff in Hp. destruct Hp as (x & <- & Hx). auto.
+  Qed.
+  Lemma pend_sched_same c c' : cr_pending c' = cr_pending c -> PendSched c -> PendSched c'.
+  Proof. unfold PendSched. intros ->. auto. Qed.
+  Lemma pend_sched_new now rows initial : PendSched (fst (cstep nxt cron_empty (CNew now rows initial))).
+  Proof.
+    cbn [cstep]. match goal with |- context [stage nxt ?c0 _ _ _ _ _] => set (c0' := c0) end.
+    destruct (stage nxt c0' now [] initial [] 0) as [[st ins]|] eqn:S; cbn [fst].
+    - apply commit_scheduled; [intros p []|]. eapply stage_scheduled; [|exact S]. intros x [].
+    - intros p [].
+  Qed.
+  Lemma pend_sched_edit c now removed added : PendSched c -> PendSched (fst (edit nxt c now removed added)).
+  Proof.
+    intros Hc. unfold edit. set (c0 := with_timer c (tm_stop_drain (cr_timer c))).
+    assert (H0 : PendSched c0) by exact Hc.
+    destruct (stage nxt c0 now _ added [] (cr_ins c0)) as [[st ins]|] eqn:S; cbn [fst].
+    - apply (pend_sched_same (commit nxt c0 (removed_keys_of nxt c0 removed) st ins)); [reflexivity|].
+      apply (commit_scheduled c0 _ st ins H0). eapply stage_scheduled; [|exact S]. intros x [].
+    - exact H0.
+  Qed.
+  Lemma pend_sched_pop c now : PendSched c -> PendSched (fst (pop nxt c now)).
+  Proof.
+    intros Hc. unfold pop. destruct (pt_min None (cr_pending c)) as [h|]; [|exact Hc].
+    destruct (entries_get (cr_entries c) (pt_key h)) as [eid|]; [|exact Hc].
+    destruct (arena_get (cr_arena c) eid) as [e|]; [|exact Hc]. cbn [fst].
+    intros p Hp. cbn in Hp. apply in_app_or in Hp. destruct Hp as [Hp|[<-|[]]]; [|reflexivity].
+    unfold pt_remove in Hp. apply filter_In in Hp. apply Hc. apply Hp.
+  Qed.
+  Lemma v_mark_disp_pend_sched s id : PendSched (vs_cron s) -> PendSched (vs_cron (fst (v_mark_disp nxt s id))).
+  Proof.
+    intros Hc. unfold v_mark_disp. match goal with |- context [if ?b then _ else _] => destruct b end.
+    - pose proof (pend_sched_pop (vs_cron s) (vs_now s) Hc) as X. destruct (pop nxt (vs_cron s) (vs_now s)) as [c' o]. exact X.
+    - destruct (rec_get (vs_record s) id); exact Hc.
+  Qed.
+
   (* ================================================================================================ *)
-  (* C03: the invariant (no property of the cron store is needed)                                     *)
+  (* C03: the invariant (the only property of the cron store needed: pending occurrences are Scheduled) *)
   (* ================================================================================================ *)
-  Record VI3 (G : Prop) (s : vsys) : Prop := mkVI3 {
+  (* F: "a Pop inside MarkAsDispatched may have failed".  With F := False the invariant is the one of the fault-free
+     model (Retry(DispatchErr) finds nothing, PDisp1 dead); with F := True it holds of every accepted trace. *)
+  Record VI3 (G F : Prop) (s : vsys) : Prop := mkVI3 {
+    v_ps : PendSched (vs_cron s);
+    v_rs : forall id t, rec_get (vs_record s) id = Some t -> t_state t = Scheduled;
     v_rk : forall id t, rec_get (vs_record s) id = Some t -> t_id t = id;
     v_acc : forall id t, In (id, t) (vs_accepted s) -> G -> inst (t_sched t) <= inst (vs_now s);
     v_st : forall id n snap, In (id, n, snap) (vs_starts s) -> G -> inst (t_sched snap) <= inst n;
     v_last : forall t, vs_last s = Some t -> due G (vs_record s) (vs_now s) (t_id t);
-    v_lastpc : match vs_pc s with PSelect | PFire1 | PFire2 _ => vs_last s = None | _ => True end;
+    v_lastpc : match vs_pc s with
+               | PSelect | PFire1 | PFire2 _ | PDisp1 _ _ | PDisp2 _ _ | PRetryDE _ | PEnd (SDispatchErr _) _ => vs_last s = None
+               | _ => True
+               end;
+    v_retrylast : forall t, vs_retry s = Some (SDispatchErr t) -> vs_last s = None;
     v_pc : match vs_pc s with
-           | PDisp1 _ _ => False
+           | PDisp1 _ t => F /\ due G (vs_record s) (vs_now s) (t_id t)
            | PDisp2 _ t => due G (vs_record s) (vs_now s) (t_id t)
-           | PRetryDE t | PEnd (SDispatchErr t) _ => rec_get (vs_record s) (t_id t) = None
+           | PRetryDE t | PEnd (SDispatchErr t) _ => F \/ rec_get (vs_record s) (t_id t) = None
            | PFire2 next => rec_get (vs_record s) (t_id next) = Some next
            | _ => True
            end;
-    v_retry : forall t, vs_retry s = Some (SDispatchErr t) -> rec_get (vs_record s) (t_id t) = None;
+    v_retry : forall t, vs_retry s = Some (SDispatchErr t) -> F \/ rec_get (vs_record s) (t_id t) = None;
     v_retrypc : vs_pc s <> PIdle -> vs_retry s = None }.
 
-  Lemma VI3_init G : VI3 G vsys_init.
-  Proof. constructor; cbn; try tauto; try discriminate; intros; discriminate. Qed.
+  Lemma VI3_fresh G F c n : PendSched c -> VI3 G F (mkVS c [] [] n None false PIdle [] [] [] [] None).
+  Proof. intros Hc. constructor; cbn; try tauto; try discriminate; intros; discriminate. Qed.
 
-  Lemma VI3_fresh G c n : VI3 G (mkVS c [] [] n None false PIdle [] [] [] [] None).
-  Proof. constructor; cbn; try tauto; try discriminate; intros; discriminate. Qed.
+  Lemma VI3_init G F : VI3 G F vsys_init.
+  Proof. apply VI3_fresh. intros p []. Qed.
+
+  (* the label of a failed Pop inside MarkAsDispatched (accepted only when the head is known under the id) *)
+  Definition failed_mark (l : vlabel) : bool :=
+    match l with VCall (CMarkDisp _) (RRes (RErr EOther)) => true | _ => false end.
 
   Notation CK sc := (sc_clock_check sc = true).
-  Lemma vi3_step sc s l s' : VI3 (CK sc) s -> vstep sc s l = Some s' -> VI3 (CK sc) s'.
+  Ltac ps Ips := try solve [ exact Ips | eapply pend_sched_same; [|exact Ips]; reflexivity ].
+  Lemma vi3_step sc (F : Prop) s l s' :
+    (failed_mark l = true -> F) -> VI3 (CK sc) F s -> vstep sc s l = Some s' -> VI3 (CK sc) F s'.
   Proof.
-    intros I H. destruct I as [Irk Iacc Ist Ilast Ilpc Ipc Iret Irpc].
+    intros HF I H. destruct I as [Ips Irs Irk Iacc Ist Ilast Ilpc Irl Ipc Iret Irpc].
     destruct l; unfold vsys_step in H; cbv beta iota zeta in H.
     - (* VNew *)
-      destruct (cstep nxt cron_empty (CNew now rows initial)) as [c' r].
+      destruct (cstep nxt cron_empty (CNew now rows initial)) as [c' r] eqn:C.
       destruct (cres_eqb r (CRBool ok)); inv H. apply VI3_fresh.
+      pose proof (pend_sched_new now rows initial) as X. rewrite C in X. exact X.
     - (* VEdit *)
       destruct (gtime_eqb now (vs_now s)); [|discriminate].
-      destruct (cstep nxt (vs_cron s) (CEdit now removed added)) as [c' r].
+      destruct (cstep nxt (vs_cron s) (CEdit now removed added)) as [c' r] eqn:C.
       destruct (cres_eqb r (CRBool ok)); inv H. constructor; vf; auto.
+      pose proof (pend_sched_edit (vs_cron s) now removed added Ips) as X. cbn [cstep] in C.
+      destruct (edit nxt (vs_cron s) now removed added) as [c1 ok1]. inv C. exact X.
     - (* VStartTimer *)
-      destruct (gtime_eqb now (vs_now s)); inv H. constructor; vf; auto.
+      destruct (gtime_eqb now (vs_now s)); inv H. constructor; vf; auto; ps Ips.
     - (* VAdvance *)
-      destruct (inst (vs_now s) <=? inst now) eqn:L; inv H. apply Z.leb_le in L. constructor; vf; auto.
+      destruct (inst (vs_now s) <=? inst now) eqn:L; inv H. apply Z.leb_le in L. constructor; vf; auto; ps Ips.
       + intros id t Hin g. specialize (Iacc id t Hin g). lia.
       + intros t E. eapply due_mono; [| exact L | apply Ilast; exact E]. auto.
-      + destruct (vs_pc s); auto. eapply due_mono; [| exact L | exact Ipc]. auto.
+      + destruct (vs_pc s); auto.
+        * destruct Ipc as [Ipc1 Ipc2]. split; [exact Ipc1|]. eapply due_mono; [| exact L | exact Ipc2]. auto.
+        * eapply due_mono; [| exact L | exact Ipc]. auto.
     - (* VStepBegin *)
       destruct (vs_pc s) eqn:P; try discriminate. inv H. constructor; vf; fin.
     - (* VRetryBegin *)
       destruct (vs_pc s) eqn:P; try discriminate. destruct (vs_retry s) as [p|] eqn:R; [|discriminate].
       destruct (sstate_eqb p prev) eqn:E; [|discriminate].
-      destruct prev; inv H; constructor; vf; fin.
-      destruct p; try discriminate E. cbn in E. apply String.eqb_eq in E. rewrite <- E. apply Iret. reflexivity.
+      destruct prev; inv H; constructor; vf; fin; destruct p; try discriminate E.
+      + eapply Irl. reflexivity.
+      + cbn in E. apply String.eqb_eq in E. rewrite <- E. apply Iret. reflexivity.
     - (* VCall *)
       destruct (vs_pc s) eqn:P; destruct c; cbv beta iota in H; try discriminate H; try contradiction;
         (assert (R : vs_retry s = None) by (apply Irpc; discriminate)).
       + (* PStep0 / CLtue *)
         destruct (negb (vs_err s) && cret_eqb r (RBool false)); inv H. constructor; vf; fin.
       + (* PStep0 / CStop *)
-        destruct (vs_err s && cret_eqb r RUnit); inv H. constructor; vf; fin.
+        destruct (vs_err s && cret_eqb r RUnit); inv H. constructor; vf; fin; ps Ips.
       + (* PRestart1 / CStop *)
-        destruct (cret_eqb r RUnit); inv H. constructor; vf; fin.
+        destruct (cret_eqb r RUnit); inv H. constructor; vf; fin; ps Ips.
       + (* PRestart2 / CStart *)
-        destruct (cret_eqb r RUnit); inv H. constructor; vf; fin.
+        destruct (cret_eqb r RUnit); inv H. constructor; vf; fin; ps Ips.
       + (* PRestart3 / CLtue *)
         destruct (cret_eqb r (RBool false)); inv H. destruct k; constructor; vf; fin.
       + (* PStepMain / CTimerCh *)
@@ -181,19 +279,31 @@ Section VProofs.
       + (* PStepMain / CMarkDisp *)
         destruct (vs_last s) as [t|] eqn:L; [|discriminate].
         destruct (String.eqb_spec id (t_id t)) as [->|]; [|discriminate].
+        destruct (cret_eqb r (RRes (RErr EOther)) && head_bound s (t_id t)) eqn:FM.
+        { (* the Pop failed: nothing changes but the scheduler's own state *)
+          apply andb_true_iff in FM. destruct FM as [FM _]. apply cret_eqb_res in FM. subst r. inv H.
+          constructor; vf; fin. }
         destruct (v_mark_disp nxt s (t_id t)) as [s1 x] eqn:M. destruct (cret_eqb r (RRes x)); [|discriminate]. inv H.
+        pose proof (v_mark_disp_pend_sched s (t_id t) Ips) as Mps. rewrite M in Mps. cbn [fst] in Mps.
         apply v_mark_disp_frame in M.
         destruct M as (M1 & M2 & M3 & M4 & M5 & M6 & M7 & M8 & M9 & M10 & Mrec & Merr).
-        destruct (is_err_res x) eqn:Ex; constructor; vf; rewrite ?M2, ?M6, ?M9, ?M10; fin.
+        destruct (is_err_res x) eqn:Ex; constructor; vf; rewrite ?M2, ?M6, ?M9, ?M10; fin; eauto.
         eapply due_mono; [| apply Z.le_refl | apply Ilast; reflexivity]. auto.
       + (* PSelect / CMarkDone *)
         destruct (vs_results s) as [|[id' o] rest]; [discriminate|].
         match type of H with (if ?b then _ else _) = _ => destruct b end; inv H.
         constructor; vf; fin.
-        intros i t G. apply Irk. eapply rec_del_shrinks. exact G.
+        * intros i t G. eapply Irs. eapply rec_del_shrinks. exact G.
+        * intros i t G. apply Irk. eapply rec_del_shrinks. exact G.
       + (* PFire1 / CGetNext *)
         destruct r as [| |x|]; try discriminate H. destruct x as [|obs| |e]; try discriminate H.
-        * destruct (head_accept s obs) as [[h ids']|]; inv H. constructor; vf; fin.
+        * destruct (head_accept s obs) as [[h ids']|] eqn:HA; inv H.
+          assert (Eobs : t_state obs = Scheduled).
+          { unfold head_accept in HA. destruct (pt_min None (cr_pending (vs_cron s))) as [h0|] eqn:Hm; [|discriminate].
+            destruct (task_eqb _ _) eqn:TE; [|discriminate]. apply task_eqb_eq in TE. apply (f_equal t_state) in TE. cbn in TE.
+            rewrite TE. apply Ips. apply (pop_is_min _ _ Hm). }
+          constructor; vf; fin.
+          -- intros i t. rewrite rec_get_set. destruct (String.eqb_spec (t_id obs) i); [intros E; inv E; exact Eobs | apply Irs].
           -- intros i t. rewrite rec_get_set. destruct (String.eqb_spec (t_id obs) i); [intros E; inv E; reflexivity | apply Irk].
           -- rewrite rec_get_set, String.eqb_refl. reflexivity.
         * destruct e; try discriminate H. destruct (pt_min None (cr_pending (vs_cron s))); inv H. constructor; vf; fin.
@@ -203,6 +313,17 @@ Section VProofs.
           (match type of H with (if ?b then _ else _) = _ => destruct b eqn:A end; inv H; constructor; vf; fin).
         intros t E. inv E. intros t' G _. rewrite Ipc in G. inv G.
         apply andb_true_iff in A. destruct A as [_ A]. apply negb_true_iff in A. unfold t_after in A. apply Z.ltb_ge in A. exact A.
+      + (* PDisp1 / CMarkDisp: Retry(DispatchErr) found the task again *)
+        destruct Ipc as [Ipc1 Ipc2].
+        destruct (String.eqb_spec id (t_id t)) as [->|]; [|discriminate].
+        destruct (cret_eqb r (RRes (RErr EOther)) && head_bound s (t_id t)) eqn:FM.
+        { inv H. constructor; vf; fin. }
+        destruct (v_mark_disp nxt s (t_id t)) as [s1 x] eqn:M. destruct (cret_eqb r (RRes x)); [|discriminate]. inv H.
+        pose proof (v_mark_disp_pend_sched s (t_id t) Ips) as Mps. rewrite M in Mps. cbn [fst] in Mps.
+        apply v_mark_disp_frame in M.
+        destruct M as (M1 & M2 & M3 & M4 & M5 & M6 & M7 & M8 & M9 & M10 & Mrec & Merr).
+        destruct (is_err_res x) eqn:Ex; constructor; vf; rewrite ?M2, ?M3, ?M6, ?M9, ?M10; fin; eauto.
+        eapply due_mono; [| apply Z.le_refl | exact Ipc2]. auto.
       + (* PDisp2 / CGetById *)
         destruct (String.eqb_spec id (t_id t)) as [->|]; [|discriminate].
         destruct (rec_get (vs_record s) (t_id t)) as [t'|] eqn:G.
@@ -210,11 +331,19 @@ Section VProofs.
           intros i t0 Hin. apply in_app_or in Hin. destruct Hin as [Hin|[E|[]]]; [eauto|]. inv E. intros g. eapply Ipc; eauto.
         * destruct (cret_eqb r (RRes (RErr EIdNotFound))); inv H. constructor; vf; fin.
       + (* PRetryDE / CGetById *)
-        destruct (String.eqb_spec id (t_id t)) as [->|]; [|discriminate]. rewrite Ipc in H.
-        destruct (cret_eqb r (RRes (RErr EIdNotFound))); inv H. constructor; vf; fin.
+        destruct (String.eqb_spec id (t_id t)) as [->|]; [|discriminate].
+        destruct (rec_get (vs_record s) (t_id t)) as [t'|] eqn:G.
+        * destruct Ipc as [Ipc|Ipc]; [|discriminate Ipc].
+          destruct (cret_eqb r (RRes (RTask t'))); [|discriminate].
+          pose proof (Irk _ _ G) as Eid.
+          destruct (t_state t') eqn:Es; [destruct (t_after (t_sched t') (vs_now s)) eqn:Af|..]; inv H; constructor; vf; fin.
+          -- split; [exact Ipc|]. intros t2 G2 _. rewrite Eid, G in G2. inv G2.
+             unfold t_after in Af. apply Z.ltb_ge in Af. exact Af.
+          -- pose proof (Irs _ _ G). congruence.
+        * destruct (cret_eqb r (RRes (RErr EIdNotFound))); inv H. constructor; vf; fin.
     - (* VFire *)
       destruct (vs_pc s) eqn:P; try discriminate. destruct (tm_pending (cr_timer (vs_cron s))); inv H.
-      constructor; vf; fin. intros _. apply Irpc. discriminate.
+      constructor; vf; fin; ps Ips. intros _. apply Irpc. discriminate.
     - (* VStepEnd *)
       destruct (vs_pc s) eqn:P; try discriminate.
       + (* select took the result branch *)
@@ -222,37 +351,47 @@ Section VProofs.
         destruct (vs_results s) as [|[id' o'] rest]; try discriminate H. destruct o'; try discriminate H.
         match type of H with (if ?b then _ else _) = _ => destruct b end; inv H. constructor; vf; fin.
       + match type of H with (if ?b then _ else _) = _ => destruct b end; inv H. constructor; vf; fin.
-        destruct st0; cbn; intros tq E; try discriminate E; try (destruct ok; discriminate E); try (destruct upd_err; discriminate E).
-        inv E. exact Ipc.
+        * destruct st0; cbn; intros tq E; try discriminate E; try (destruct ok; discriminate E); try (destruct upd_err; discriminate E).
+          exact Ilpc.
+        * destruct st0; cbn; intros tq E; try discriminate E; try (destruct ok; discriminate E); try (destruct upd_err; discriminate E).
+          inv E. exact Ipc.
     - (* VWorkStart *)
-      destruct (List.find (fun x => String.eqb (fst x) id) (vs_accepted s)) as [[i t]|] eqn:F; [|discriminate].
+      destruct (List.find (fun x => String.eqb (fst x) id) (vs_accepted s)) as [[i t]|] eqn:F0; [|discriminate].
       destruct (gtime_eqb now (vs_now s) && task_eqb snap t) eqn:E; inv H.
       apply andb_true_iff in E. destruct E as [E1 E2]. apply gtime_eqb_eq in E1. apply task_eqb_eq in E2. subst.
-      apply find_fst_some in F. destruct F as [-> Hin]. constructor; vf; fin.
+      apply find_fst_some in F0. destruct F0 as [-> Hin]. constructor; vf; fin.
       + intros i t0 Hin'. apply in_remove_first in Hin'. eauto.
       + intros i n sn [E|Hin']; [inv E; eauto | eauto].
     - (* VWorkEnd *)
       destruct (str_mem id (vs_running s)); [inv H; constructor; vf; fin|].
       destruct o; try discriminate H.
-      destruct (List.find (fun x => String.eqb (fst x) id) (vs_accepted s)) eqn:F; inv H. constructor; vf; fin.
+      destruct (List.find (fun x => String.eqb (fst x) id) (vs_accepted s)) eqn:F0; inv H. constructor; vf; fin.
       intros i t0 Hin'. apply in_remove_first in Hin'. eauto.
     - (* VDump *)
       match type of H with (if ?b then _ else _) = _ => destruct b end; inv H. constructor; auto.
     - discriminate.
   Qed.
 
-  Lemma vi3_run sc tr : forall s s', VI3 (CK sc) s -> vrun nxt sc s tr = Some s' -> VI3 (CK sc) s'.
+  Fixpoint has_failed_mark (tr : list vlabel) : bool :=
+    match tr with [] => false | l :: r => failed_mark l || has_failed_mark r end.
+
+  Lemma vi3_run sc (F : Prop) tr : forall s s',
+    (has_failed_mark tr = true -> F) -> VI3 (CK sc) F s -> vrun nxt sc s tr = Some s' -> VI3 (CK sc) F s'.
   Proof.
-    induction tr as [|l tr IH]; intros s s' I H; cbn [vrun] in H.
+    induction tr as [|l tr IH]; intros s s' HF I H; cbn [vrun has_failed_mark] in *.
     - inv H. exact I.
-    - destruct (vstep sc s l) as [s1|] eqn:S; [|discriminate]. eapply IH; [|exact H]. eapply vi3_step; eauto.
+    - destruct (vstep sc s l) as [s1|] eqn:S; [|discriminate]. eapply IH; [| |exact H].
+      + intros E. apply HF. rewrite E. apply orb_true_r.
+      + eapply vi3_step; [|exact I|exact S]. intros E. apply HF. rewrite E. reflexivity.
   Qed.
+  Lemma vi3_run_any sc tr s s' : VI3 (CK sc) True s -> vrun nxt sc s tr = Some s' -> VI3 (CK sc) True s'.
+  Proof. apply vi3_run. intros _. exact I. Qed.
 
   (* ---------- Theorem 1 ---------- *)
   Theorem VC03_no_early_start sc tr s :
     sc_clock_check sc = true -> vrun nxt sc vsys_init tr = Some s ->
     forall id n snap, In (id, n, snap) (vs_starts s) -> inst (t_sched snap) <= inst n.
-  Proof. intros Hcc H id n snap Hin. exact (v_st _ s (vi3_run sc tr _ _ (VI3_init _) H) id n snap Hin Hcc). Qed.
+  Proof. intros Hcc H id n snap Hin. exact (v_st _ _ s (vi3_run_any sc tr _ _ (VI3_init _ _) H) id n snap Hin Hcc). Qed.
 
   (* ---------- Theorem 2 ---------- *)
   Lemma vrun_app sc tr1 tr2 s :
@@ -539,7 +678,7 @@ Section VProofs.
          | |- match ?p with _ => _ end => destruct p; auto
          end).
 
-  Lemma vi4_step sc G s l s' : VI3 G s -> VI4 s -> vstep sc s l = Some s' -> VI4 s'.
+  Lemma vi4_step sc G Fm s l s' : VI3 G Fm s -> VI4 s -> vstep sc s l = Some s' -> VI4 s'.
   Proof.
     intros I3 I4 H. pose proof (w_inv s I4) as Iinv. pose proof (w_nd s I4) as Ind.
     destruct l; unfold vsys_step in H; cbv beta iota zeta in H.
@@ -572,7 +711,7 @@ Section VProofs.
       destruct (sstate_eqb p prev) eqn:E; [|discriminate].
       destruct prev; inv H; fr s Iinv.
     - (* VCall *)
-      pose proof (v_pc _ s I3) as Ipc3. pose proof (w_pc s I4) as Ipc4.
+      pose proof (v_pc _ _ s I3) as Ipc3. pose proof (w_pc s I4) as Ipc4.
       destruct (vs_pc s) eqn:P; destruct c; cbv beta iota in H; try discriminate H; try contradiction.
       + (* PStep0 / CLtue *)
         destruct (negb (vs_err s) && cret_eqb r (RBool false)); inv H. fr s Iinv.
@@ -589,6 +728,7 @@ Section VProofs.
       + (* PStepMain / CMarkDisp *)
         destruct (vs_last s) as [t|] eqn:L; [|discriminate].
         destruct (String.eqb_spec id (t_id t)) as [->|]; [|discriminate].
+        destruct (cret_eqb r (RRes (RErr EOther)) && head_bound s (t_id t)); [inv H; fr s Iinv|].
         destruct (v_mark_disp nxt s (t_id t)) as [s1 x] eqn:M. destruct (cret_eqb r (RRes x)); [|discriminate]. inv H.
         destruct (v_mark_disp_vi4 s (t_id t) s1 x I4 M) as (X1 & X2 & X3).
         apply v_mark_disp_frame in M.
@@ -612,11 +752,19 @@ Section VProofs.
       + (* PFire2 / CNextSched *)
         destruct (cret_eqb r (RTime (next_scheduled (vs_cron s)))); [|discriminate].
         match type of H with (if ?b then _ else _) = _ => destruct b end; inv H; fr s Iinv.
+      + (* PDisp1 / CMarkDisp *)
+        destruct (String.eqb_spec id (t_id t)) as [->|]; [|discriminate].
+        destruct (cret_eqb r (RRes (RErr EOther)) && head_bound s (t_id t)); [inv H; fr s Iinv|].
+        destruct (v_mark_disp nxt s (t_id t)) as [s1 x] eqn:M. destruct (cret_eqb r (RRes x)); [|discriminate]. inv H.
+        destruct (v_mark_disp_vi4 s (t_id t) s1 x I4 M) as (X1 & X2 & X3).
+        apply v_mark_disp_frame in M.
+        destruct M as (M1 & M2 & M3 & M4 & M5 & M6 & M7 & M8 & M9 & M10 & Mrec & Merr).
+        destruct (is_err_res x) eqn:Ex; apply (vi4_frame s); vf; rewrite ?M1, ?M6, ?M9; auto.
       + (* PDisp2 / CGetById *)
         destruct (String.eqb_spec id (t_id t)) as [->|]; [|discriminate].
         destruct (rec_get (vs_record s) (t_id t)) as [t'|] eqn:G0.
         * destruct (cret_eqb r (RRes (RTask t'))); inv H.
-          pose proof (v_rk _ s I3 _ _ G0) as Eid.
+          pose proof (v_rk _ _ s I3 _ _ G0) as Eid.
           destruct Ipc4 as [Hfresh Hgone]; [congruence|].
           destruct I4 as [_ Ifst Isnd Ile _ Iused _].
           assert (HP : Permutation (t_id t :: sidl (vs_accepted s) (vs_starts s))
@@ -627,8 +775,12 @@ Section VProofs.
           -- intros id Hin. apply (Permutation_in _ (Permutation_sym HP)) in Hin. destruct Hin as [<-|Hin]; auto.
         * destruct (cret_eqb r (RRes (RErr EIdNotFound))); inv H. fr s Iinv.
       + (* PRetryDE / CGetById *)
-        destruct (String.eqb_spec id (t_id t)) as [->|]; [|discriminate]. rewrite Ipc3 in H.
-        destruct (cret_eqb r (RRes (RErr EIdNotFound))); inv H. fr s Iinv.
+        destruct (String.eqb_spec id (t_id t)) as [->|]; [|discriminate].
+        destruct (rec_get (vs_record s) (t_id t)) as [t'|] eqn:G0.
+        * destruct (cret_eqb r (RRes (RTask t'))); [|discriminate].
+          pose proof (v_rs _ _ s I3 _ _ G0) as Es. rewrite Es in H.
+          destruct (t_after (t_sched t') (vs_now s)); inv H; fr s Iinv.
+        * destruct (cret_eqb r (RRes (RErr EIdNotFound))); inv H. fr s Iinv.
     - (* VFire *)
       destruct (vs_pc s) eqn:P; try discriminate. destruct (tm_pending (cr_timer (vs_cron s))); inv H. fr s Iinv.
     - (* VStepEnd *)
@@ -655,21 +807,27 @@ Section VProofs.
     - discriminate.
   Qed.
 
-  Lemma vi34_run sc tr :
-    forall s s', VI3 (CK sc) s -> VI4 s -> vrun nxt sc s tr = Some s' -> VI3 (CK sc) s' /\ VI4 s'.
+  Lemma vi34_run sc (F : Prop) tr :
+    forall s s', (has_failed_mark tr = true -> F) -> VI3 (CK sc) F s -> VI4 s -> vrun nxt sc s tr = Some s' ->
+                 VI3 (CK sc) F s' /\ VI4 s'.
   Proof.
-    induction tr as [|l tr IH]; intros s s' I3 I4 H; cbn [vrun] in H.
+    induction tr as [|l tr IH]; intros s s' HF I3 I4 H; cbn [vrun has_failed_mark] in *.
     - inv H. auto.
     - destruct (vstep sc s l) as [s1|] eqn:S; [|discriminate].
-      apply (IH s1 s'); [eapply vi3_step; eauto | eapply vi4_step; eauto | exact H].
+      apply (IH s1 s'); [| | eapply vi4_step; eauto | exact H].
+      + intros E. apply HF. rewrite E. apply orb_true_r.
+      + eapply vi3_step; [|exact I3|exact S]. intros E. apply HF. rewrite E. reflexivity.
   Qed.
+  Lemma vi34_run_any sc tr s s' :
+    VI3 (CK sc) True s -> VI4 s -> vrun nxt sc s tr = Some s' -> VI3 (CK sc) True s' /\ VI4 s'.
+  Proof. apply vi34_run. intros _. exact I. Qed.
 
   (* ---------- Theorem 4 ---------- *)
   Theorem VC04_at_most_once sc tr s :
     vrun nxt sc vsys_init tr = Some s ->
     NoDup (map (fun x => fst (fst x)) (vs_starts s)).
   Proof.
-    intros H. destruct (vi34_run sc tr _ _ (VI3_init _) VI4_init H) as [_ I4].
+    intros H. destruct (vi34_run_any sc tr _ _ (VI3_init _ _) VI4_init H) as [_ I4].
     pose proof (w_nd s I4) as X. unfold sidl in X. apply NoDup_app_right in X. exact X.
   Qed.
 
@@ -694,22 +852,33 @@ Section VProofs.
                     /\ forall p, In p (cr_pending (vs_cron s)) -> pt_ins p <> ins)
     /\ (forall p, In p (cr_pending (vs_cron s)) -> (pt_ins p <= cr_ins (vs_cron s))%nat).
   Proof.
-    intros H. destruct (vi34_run sc tr _ _ (VI3_init _) VI4_init H) as [_ I4].
+    intros H. destruct (vi34_run_any sc tr _ _ (VI3_init _ _) VI4_init H) as [_ I4].
     split; [apply (w_fst s I4)|]. split; [apply (w_snd s I4)|]. split; [apply (w_nd s I4)|]. split.
     - intros id Hin. destruct (w_used s I4 id Hin) as (ins & Hi & Hn). exists ins. split; [exact Hi|].
       split; [eapply (w_le s I4); exact Hi | exact Hn].
     - apply (i_ins_le nxt _ (w_inv s I4)).
   Qed.
-  (* Retry(DispatchErr) never finds the task in this configuration (the record is gone by then): PDisp1 is dead code *)
+  (* Retry(DispatchErr) never finds the task (the record is gone by then; PDisp1 and PDisp2 KRetry are dead code) ... as
+     long as no Pop inside MarkAsDispatched has failed.  With a failed Pop the record is kept and Retry finds the task
+     again: V_retry_finds_task below. *)
   Theorem V_retry_finds_nothing sc tr s :
-    vrun nxt sc vsys_init tr = Some s ->
+    vrun nxt sc vsys_init tr = Some s -> has_failed_mark tr = false ->
     match vs_pc s with
     | PDisp1 _ _ => False
     | PRetryDE t => rec_get (vs_record s) (t_id t) = None
     | _ => True
     end.
   Proof.
-    intros H. pose proof (v_pc _ s (vi3_run sc tr _ _ (VI3_init _) H)) as X. destruct (vs_pc s); auto.
+    intros H NF. assert (HF : has_failed_mark tr = true -> False) by (rewrite NF; discriminate).
+    pose proof (v_pc _ _ s (vi3_run sc False tr _ _ HF (VI3_init _ _) H)) as X. destruct (vs_pc s); auto; tauto.
+  Qed.
+  (* what is left of it in general: whatever Retry(DispatchErr) finds and dispatches again is due (it re-checks the clock) *)
+  Theorem V_retry_dispatches_only_due sc tr s k t :
+    sc_clock_check sc = true -> vrun nxt sc vsys_init tr = Some s -> vs_pc s = PDisp1 k t ->
+    forall t', rec_get (vs_record s) (t_id t) = Some t' -> inst (t_sched t') <= inst (vs_now s).
+  Proof.
+    intros Hcc H P t' G. pose proof (v_pc _ _ s (vi3_run_any sc tr _ _ (VI3_init _ _) H)) as X. rewrite P in X.
+    destruct X as [_ X]. exact (X t' G Hcc).
   Qed.
 
   (* ---------- the boolean predicate vc04_ok on the accepted trace ---------- *)
@@ -839,6 +1008,35 @@ Example V_nonvacuous_early :
   vrun ex_nxt scfg_fixed vsys_init (ex_prefix ++ [VWorkStart "A" ex_t1 ex_obs]) = None.
 Proof. vm_compute. reflexivity. Qed.
 
+(* ---------- a failed Pop inside MarkAsDispatched: the record is kept and Retry(DispatchErr) finds the task ---------- *)
+(* the same run, but the store's Pop fails once (transient error, nothing popped): Step reports DispatchErr, the
+   driver retries, GetById finds the record (PDisp1 KRetry is NOT dead), MarkAsDispatched pops, the task starts once *)
+Definition ex_retry_found : list vlabel :=
+  (ex_prefix ++
+   [VCall CGetNext (RRes (RTask ex_obs)); VCall CNextSched (RTime (Some ex_t1)); VStepEnd (SNextTask true (Some ex_obs)) false;
+    VStepBegin; VCall CLtue (RBool false); VCall (CMarkDisp "A") (RRes (RErr EOther)); VStepEnd (SDispatchErr ex_obs) false;
+    VRetryBegin (SDispatchErr ex_obs); VCall (CGetById "A") (RRes (RTask ex_obs))])%list.
+Definition ex_retry_trace : list vlabel :=
+  (ex_retry_found ++
+   [VCall (CMarkDisp "A") (RRes ROk); VCall (CGetById "A") (RRes (RTask ex_obs));
+    VStepEnd (SDispatched "A") false; VWorkStart "A" ex_t1 ex_obs])%list.
+Theorem V_retry_finds_task :
+  has_failed_mark ex_retry_trace = true
+  /\ (exists s1, vrun ex_nxt scfg_fixed vsys_init ex_retry_found = Some s1
+                 /\ vs_pc s1 = PDisp1 KRetry ex_obs /\ rec_get (vs_record s1) "A" = Some ex_obs
+                 /\ map pt_ins (cr_pending (vs_cron s1)) = [1%nat] /\ vs_ids s1 = [(1%nat, "A")])
+  /\ (exists s, vrun ex_nxt scfg_fixed vsys_init ex_retry_trace = Some s
+                /\ vs_starts s = [("A", ex_t1, ex_obs)] /\ map pt_ins (cr_pending (vs_cron s)) = [2%nat] /\ vs_pc s = PIdle
+                /\ vall_ok ex_retry_trace = true)
+  (* the pinned scheduler accepts it as well *)
+  /\ vsys_check ex_nxt scfg_pinned vsys_init ex_retry_trace 0 = None.
+Proof.
+  split; [vm_compute; reflexivity|]. split; [|split].
+  - eexists. split; [vm_compute; reflexivity|]. vm_compute. repeat split.
+  - eexists. split; [vm_compute; reflexivity|]. vm_compute. repeat split.
+  - vm_compute. reflexivity.
+Qed.
+
 (* ---------- without the clock check (the pinned scheduler) C03 is false in this configuration too ---------- *)
 (* the fire for entry 0 is consumed; an edit replaces entry 0 by entry 1 (first occurrence one hour later) before
    GetNext runs; GetNext / NextScheduled agree on the new head, and the pinned Step announces and dispatches it *)
@@ -876,6 +1074,8 @@ Print Assumptions VC04_at_most_once.
 Print Assumptions VC04_start_consumes_acceptance.
 Print Assumptions VC04_reachable_facts.
 Print Assumptions V_retry_finds_nothing.
+Print Assumptions V_retry_dispatches_only_due.
+Print Assumptions V_retry_finds_task.
 Print Assumptions VC04_predicate_holds.
 Print Assumptions VC03_pinned_refuted.
 Print Assumptions V_two_stores_same_id.
